@@ -399,6 +399,22 @@ class Ctx:
         if exhaustive is not None:
             cov["exhaustive"] = exhaustive
         cov.update(self.extra)
+        # keys the evidence schema types: anything of another shape is kept under <key>_detail
+        _typed = {"evaluations": int, "distinct_nontrivial": int, "rule": str, "samples": list, "states": int, "transitions": int,
+                  "traces_validated_against_impl": int, "obligations": int, "discharged": int, "checker_cmd": str,
+                  "trusted_base": list, "programs": int, "disagreements_checked": int, "explanation": str, "exhaustive": bool}
+        for k, t in _typed.items():
+            if k in cov and (not isinstance(cov[k], t) or (t is int and isinstance(cov[k], bool))):
+                v = cov.pop(k)
+                cov[k + "_detail"] = v
+                if t is int and isinstance(v, dict):
+                    nums = [x for x in v.values() if isinstance(x, int) and not isinstance(x, bool)]
+                    cov[k] = max(nums) if nums else 0
+                elif t is int and isinstance(v, (float, str)):
+                    try:
+                        cov[k] = int(float(v))
+                    except ValueError:
+                        pass
         if self.level not in ("exploration", "fault_enumeration", "model_checking", "proof", "translation_validation", "other"):
             self.level = "model_checking"
         ev = {
